@@ -89,3 +89,94 @@ def _m6():
         suffix = path.relpath(directory.parent(), localize=False)
         return directory.append(suffix)
     bpath.within_directory = within_directory
+
+
+def _patch_basepath_init(transform):
+    """helper: wrap BasePath.__init__ so that a mutant can post-process the constructed path"""
+    from bfg9000.platforms import basepath
+    orig = basepath.BasePath.__init__
+
+    def __init__(self, path, root=basepath.Root.builddir, destdir=None, directory=None):
+        transform(orig, self, path, root, destdir, directory)
+    basepath.BasePath.__init__ = __init__
+
+
+@mutant('path_no_escape_check')
+def _m7():
+    # "too many '..'" check dropped: paths may leave their root
+    import posixpath
+
+    def t(orig, self, path, root, destdir, directory):
+        try:
+            orig(self, path, root, destdir, directory)
+        except ValueError as e:
+            if 'too many' not in str(e):
+                raise
+            self.suffix = posixpath.normpath(path.replace('\\', '/'))
+            self.root = root
+            self.directory = bool(directory)
+            self.destdir = bool(destdir)
+    _patch_basepath_init(t)
+
+
+@mutant('path_no_backslash')
+def _m8():
+    # backslash no longer treated as a separator
+    from bfg9000.platforms import basepath
+    import posixpath
+
+    def normpath(path):
+        isdir = posixpath.basename(path) in ('', posixpath.curdir, posixpath.pardir)
+        path = posixpath.normpath(path)
+        if path == posixpath.curdir:
+            path = ''
+        return path, isdir
+    basepath.BasePath._BasePath__normpath = staticmethod(normpath)
+
+
+@mutant('path_json_no_dir')
+def _m9():
+    # to_json forgets the trailing separator that carries the directory flag
+    from bfg9000.platforms import basepath
+
+    def to_json(self):
+        return [self.suffix, self.root.name, self.destdir]
+    basepath.BasePath.to_json = to_json
+
+
+@mutant('relpath_no_origin_join')
+def _m10():
+    # prefix glued on without a separator
+    from bfg9000.platforms import basepath
+    import posixpath
+
+    def relpath(self, start, prefix='', localize=True):
+        if self.root == basepath.Root.absolute:
+            return self.suffix
+        if self.root != start.root:
+            raise ValueError('source mismatch')
+        rel = posixpath.relpath(self.suffix or posixpath.curdir, start.suffix or posixpath.curdir)
+        if prefix and rel == posixpath.curdir:
+            return prefix
+        return prefix + rel
+    basepath.BasePath.relpath = relpath
+
+
+@mutant('commonprefix_minmax')
+def _m11():
+    # compares only the first two paths instead of min/max
+    from bfg9000 import path as bpath
+
+    def commonprefix(paths):
+        if not paths or any(i.root != paths[0].root for i in paths):
+            return None
+        cls = type(paths[0])
+        split = [i.split() for i in paths]
+        lo, hi = split[0], split[0]
+        for i, bit in enumerate(lo):
+            if bit != hi[i]:
+                return cls(cls.sep.join(lo[:i]), paths[0].root, directory=True)
+        return cls(cls.sep.join(lo), paths[0].root, directory=(lo != hi))
+    bpath.commonprefix = commonprefix
+    import vpx.harness.c12 as h
+    h.commonprefix = commonprefix
